@@ -13,6 +13,10 @@ def toffoli_gate(control1: Qubit, control2: Qubit, target: Qubit) -> None:
 
     See https://en.wikipedia.org/wiki/Toffoli_gate
     """
+    # All qubits are checked before the first gate is queued:
+    # a call that is refused leaves nothing of its circuit behind
+    for qubit in (control1, control2, target):
+        qubit.assert_active()
     target.H()
     control2.cnot(target)
     t_inverse(target)
